@@ -29,6 +29,9 @@ impl Policy {
     #[verifier::external_body] pub fn id(&self) -> (r: &PolicyID) ensures *r == self.spec_id() { unimplemented!() }
     #[verifier::external_body] pub fn template(&self) -> (r: &Template) ensures *r == self.spec_template() { unimplemented!() }
     #[verifier::external_body] pub fn template_arc(&self) -> (r: Arc<Template>) ensures *r == self.spec_template() { unimplemented!() }
+    /// a static policy has no link id: its id is its template's id (Policy::{is_static, id}: proved in unit linking)
+    pub uninterp spec fn spec_is_static(&self) -> bool;
+    #[verifier::external_body] pub fn is_static(&self) -> (r: bool) ensures r == self.spec_is_static(), r ==> self.spec_id() == self.spec_template().spec_id() { unimplemented!() }
 }
 /// `Arc<Template> != Arc<Template>` (derived PartialEq on Template; trusted to be spec equality)
 #[verifier::external_body] pub fn vx_template_ne(a: &Arc<Template>, b: &Arc<Template>) -> (r: bool) ensures r == (**a != **b) { unimplemented!() }
@@ -36,3 +39,5 @@ impl Policy {
 /// `std::iter::once(x).collect()` / `vec![x].into_iter().collect()` into a LinkedHashSet: the singleton set
 #[verifier::external_body] pub fn vx_singleton(p: PolicyID) -> (r: LinkedHashSet<PolicyID>) ensures r.view() == SSet::<PolicyID>::empty().insert(p) { unimplemented!() }
 pub enum LinkingError { ArityError { inner: LinkingErrorInner }, NoSuchTemplate { id: PolicyID }, PolicyIdConflict { id: PolicyID } }
+/// a static policy's id is its template's id (Policy::id returns the link id or else the template id, Policy::is_static is `link.is_none()`: both proved in unit linking)
+pub broadcast axiom fn axiom_static_id(p: Policy) ensures #[trigger] p.spec_is_static() ==> p.spec_id() == p.spec_template().spec_id();
